@@ -198,6 +198,10 @@ static void run_case(void *ctx, mx_result_t *r)
         }
     }
     rc = len > 0 ? world_feed(&g->w, v, buf, len) : 0;
+    if (getenv("MXV_DEBUG") && g->w.s[v].ssl)
+    {
+        fprintf(stderr, "after edit feed: rc %d inlen %d insize %d hsState %d err %d flags %x\n", rc, g->w.s[v].ssl->inlen, g->w.s[v].ssl->insize, g->w.s[v].ssl->hsState, g->w.s[v].ssl->err, g->w.s[v].ssl->flags);
+    }
     world_pump(&g->w, 100);
     for (s = 0; s < 2; s++)
     {
@@ -209,6 +213,13 @@ static void run_case(void *ctx, mx_result_t *r)
             snprintf(r->what, sizeof(r->what), "side %d buffers grew to in %d / out %d bytes (max %d) after %s edit", s, ssl->insize, ssl->outsize, SSL_MAX_BUF_SIZE, ename[e->kind]);
         }
     }
+    if (g->w.corrupt && !r->violation)
+    {
+        r->violation = 1;
+        snprintf(r->key, sizeof(r->key), "readbuf-out-of-bounds|%s|%s", ver_name(c->ver), v ? "server" : "client");
+        snprintf(r->what, sizeof(r->what), "after the edit (%s off %d val %d) matrixSslGetReadbuf returned a region outside the input buffer (ssl->inlen out of range): the next recv() would write out of bounds [%s]",
+            ename[e->kind], e->off, e->val, r->desc);
+    }
     snprintf(r->outcome, sizeof(r->outcome), "%s:%s:c%d%d", ename[e->kind], rc < 0 ? "err" : rc == MATRIXSSL_REQUEST_RECV ? "recv" : "ok",
         world_is_complete(&g->w, 0), world_is_complete(&g->w, 1));
     r->transitions = g->w.actions;
@@ -216,7 +227,7 @@ static void run_case(void *ctx, mx_result_t *r)
     world_free(&g->w);
     env_track(0);
     live = env_live();
-    if (live != 0 && !r->violation)
+    if (live != 0 && !r->violation && !g->w.corrupt)
     {
         char cd[96];
         cfg_desc(c, cd, sizeof(cd));
@@ -277,7 +288,7 @@ static void run_group(long gi, void *unused)
             int L = g.seed_len;
             for (o = 0; o < L && !mx_deadline_hit(); o++)
             {
-                int dense = thorough || L <= 600 || o < 200 || o >= L - 64 || (o % 8) == 0;
+                int dense = thorough || L <= 400 || o < 160 || o >= L - 48 || (o % 16) == 0;
                 fork_edit(&g, E_TRUNC, o, 0);
                 if (!dense)
                 {
@@ -331,8 +342,8 @@ static void run_group(long gi, void *unused)
                 fork_edit(&g, E_COALESCE, 0, 1);
             }
         }
-        /* raw inputs in the first state, mid-handshake and the connected state */
-        if (g.p == 0 || g.p == 2 || g.p > nsteps[g.ci])
+        /* raw inputs in the first state and the connected state (quick: PSK configurations only, header alphabet on a stride) */
+        if ((g.p == 0 || g.p > nsteps[g.ci]) && (thorough || cfgs[g.ci].kx == KX_PSK || cfgs[g.ci].kx == KX_13_PSK))
         {
             fork_edit(&g, E_RAW, 0, 0);
             for (k = 0; k < 256 && !mx_deadline_hit(); k++)
@@ -343,7 +354,7 @@ static void run_group(long gi, void *unused)
             {
                 fork_edit(&g, E_RAW, 2, k);
             }
-            for (k = 0; k < 7776 && !mx_deadline_hit(); k += (thorough || cfgs[g.ci].kx == KX_PSK) ? 1 : 7)
+            for (k = 0; k < 7776 && !mx_deadline_hit(); k += thorough ? 1 : 5)
             {
                 fork_edit(&g, E_HDR, 0, k);
             }
@@ -366,7 +377,7 @@ int main(int argc, char **argv)
     cfg.engine = "fork-dfs over live sessions, ASan+UBSan build, allocator seam for the leak balance";
     cfg.rule = "case = (configuration, handshake prefix or connected state, receiving role, one structure-agnostic edit of the next honest unit): every truncation; every byte x {00,01,7f,80,ff,x^01,x^80,x+1}; "
                "every 2-byte window x {0000,0001,7fff,ffff,n-1,n+1}; every 3-byte window x {000000,00ffff,ffffff}; every split of a plaintext handshake record into two; coalescing with the follower; "
-               "raw strings of length <= 2 and 5-byte headers over {00,01,16,17,7f,ff}^5 in three states (quick: long units are covered densely at head and tail and on an 8-byte grid; 2-byte raw strings on a 251 stride); "
+               "raw strings of length <= 2 and 5-byte headers over {00,01,16,17,7f,ff}^5 in the initial and the connected state (quick: PSK configurations, header alphabet on a stride of 5, 2-byte strings on a stride of 251; long units densely at head and tail and on a 16-byte grid); "
                "all distinct; non-trivial = edit applied to a live session";
     cfg.assumptions[0] = "this is the complete single-edit neighbourhood of every honest flight in every reachable handshake state, not all byte strings; protected phases are edited on ciphertext only (MAC/AEAD rejects before the inner parsers)";
     cfg.assumptions[1] = "oracle: no ASan/UBSan report, signal or 20 s hang; insize/outsize <= SSL_MAX_BUF_SIZE; after deleting sessions and keys the tracked allocation count is zero";
@@ -376,13 +387,13 @@ int main(int argc, char **argv)
     ncfg = std_configs(cfgs, MAXCFG, thorough);
     if (!thorough)
     {
-        /* quick: PSK per version + TLS 1.2 RSA, TLS 1.3 RSA, DTLS 1.2 ECDHE (one certificate configuration per protocol family) */
+        /* quick: TLS 1.2 / DTLS 1.2 / TLS 1.3 with PSK, plus TLS 1.2 RSA and TLS 1.3 RSA (certificate parsers); everything else in thorough */
         int n = 0;
         for (i = 0; i < ncfg; i++)
         {
             const wcfg_t *c = &cfgs[i];
-            int keep = (c->kx == KX_PSK && !c->cver && !c->suite) || (c->ver == V_TLS12 && c->kx == KX_RSA && !c->cver) || (c->ver == V_TLS13 && c->kx == KX_13_RSA && !c->cver) ||
-                (c->ver == V_DTLS12 && c->kx == KX_ECDHE_RSA) || (c->ver == V_TLS13 && c->kx == KX_13_PSK && !c->early_data) || (c->ver == V_TLS12 && c->suite == TLS_PSK_WITH_AES_128_CBC_SHA256);
+            int keep = (c->kx == KX_PSK && !c->cver && !c->suite && (c->ver == V_TLS12 || c->ver == V_DTLS12)) || (c->ver == V_TLS12 && c->kx == KX_RSA && !c->cver) || (c->ver == V_TLS13 && c->kx == KX_13_RSA && !c->cver) ||
+                (c->ver == V_TLS13 && c->kx == KX_13_PSK && !c->early_data);
             if (keep)
             {
                 cfgs[n++] = *c;
